@@ -69,6 +69,16 @@ CHECKS = {
              'grammar\'s extremes are inserted at random positions; TLC requires the records of the modified '
              'file to equal the records of the original with Opt(k,v) (integers converted) added.',
         ref='6 C12'),
+    'C08': dict(
+        technique='TLA+ spec (MC_Reader: Total, Progress, ErrRange over all token files and all short byte '
+                  'strings) + TLC trace validation of DiffXReader / DiffX.from_stream on random and corrupted '
+                  'inputs (Trace_Reader contract mode)',
+        text='The Reader spec has exactly three outcomes and strictly consumes input (model-checked on every '
+             'file of <= N tokens and every byte string <= M over 11 bytes). Random bytes and 1-3 catalogue '
+             'corruptions of canonical/foreign files are given to DiffXReader and DiffX.from_stream; TLC accepts '
+             'only done or DiffXParseError with 0 <= line <= physical lines and a message that agrees with '
+             'line/column, only library-family errors from the object model, and a closed stream.',
+        ref='6 C08'),
 }
 
 PENDING = {}
